@@ -125,3 +125,270 @@ def register(PROPS):
              "two batches/page size 3/gzip): read back == written, file valid under the C02 walker, column data == reference striping and reassembles. evaluations = records judged; every judged "
              "record set is non-trivial (distinct structural values); class histogram gives verdict per program.",
     )
+
+
+# ---------------------------------------------------------------------------
+# C14: excluded fields are inert, embedding equals inlining (metamorphic over programs)
+
+import random
+
+EXCL_TYPES = [
+    # (go type, class, imports, aux declarations needed)
+    ("int32", "primitive", (), ""),
+    ("string", "primitive", (), ""),
+    ("*float64", "primitive-ptr", (), ""),
+    ("[]bool", "primitive-slice", (), ""),
+    ("int", "basic", (), ""),
+    ("uint8", "basic", (), ""),
+    ("[]byte", "basic-slice", (), ""),
+    ("[4]int32", "array", (), ""),
+    ("map[string]int32", "map", (), ""),
+    ("chan int32", "chan", (), ""),
+    ("func(int32) string", "func-unnamed", (), ""),
+    ("func(Z int32) (Err error)", "func-named", (), ""),
+    ("struct{ A int32 }", "anon-struct", (), ""),
+    ("struct {\n\t\tB *string\n\t\tC []int64\n\t}", "anon-struct", (), ""),
+    ("interface{ M(x int32) string }", "interface", (), ""),
+    ("interface{}", "interface", (), ""),
+    ("Aux", "named-struct", (), "type Aux struct {\n\tQ int32\n\tR *string\n}\n\n"),
+    ("*Aux", "named-struct-ptr", (), "type Aux struct {\n\tQ int32\n\tR *string\n}\n\n"),
+    ("[]Aux", "named-struct-slice", (), "type Aux struct {\n\tQ int32\n\tR *string\n}\n\n"),
+    ("time.Time", "qualified", ("time",), ""),
+    ("*time.Duration", "qualified", ("time",), ""),
+]
+EXCL_HOW_QUICK = ["unexported", "dash"]
+EXCL_HOW_THOROUGH = ["unexported", "dash", "underscore", "nonascii"]
+
+
+def healthy_bases(D):
+    """annotated shapes of the C05 grammar that are not listed as failing, plus the fixture-like composites."""
+    bad = set()
+    for k in D.known_entries("C05"):
+        m = k["key"].split("/shape=")
+        if len(m) == 2:
+            bad.add(m[1])
+    out = []
+    seen = set()
+    for f in lab.enum_e1() + lab.enum_e2(2, ("none", "req", "opt")) + lab.enum_e3():
+        if any(x[0] == "embedded" for x in f):
+            continue
+        n = lab.typed_notation(f)
+        if n in bad or n in seen:
+            continue
+        seen.add(n)
+        out.append(lab.annotate(f))
+    return out
+
+
+def structs_of(fields, path=()):
+    """all (path, fieldlist) pairs: the root struct and every group/embedded struct."""
+    out = [(path, fields)]
+    for i, f in enumerate(fields):
+        if f[0] == "group":
+            out += structs_of(f[2], path + (i,))
+        elif f[0] == "embedded":
+            out += structs_of(f[1], path + (i,))
+    return out
+
+
+def replace_at(fields, path, fn):
+    """returns a copy of fields with the struct at path replaced by fn(its field list)."""
+    if not path:
+        return fn(list(fields))
+    i = path[0]
+    f = fields[i]
+    out = list(fields)
+    if f[0] == "group":
+        out[i] = ("group", f[1], replace_at(f[2], path[1:], fn), f[3], f[4])
+    else:
+        out[i] = ("embedded", replace_at(f[1], path[1:], fn))
+    return out
+
+
+def c14_pairs(D, tier, seed):
+    rnd = random.Random(1000003 * seed + (17 if tier == "thorough" else 5))
+    bases = healthy_bases(D)
+    n = 400 if tier == "thorough" else 48
+    hows = EXCL_HOW_THOROUGH if tier == "thorough" else EXCL_HOW_QUICK
+    pairs = []
+    for k in range(n):
+        base = bases[rnd.randrange(len(bases))] if k >= len(EXCL_TYPES) else bases[(k * 37) % len(bases)]
+        dec = base
+        desc = []
+        imports, aux = set(), ""
+        kind = rnd.choice(["excl", "excl", "embed", "both"]) if k >= len(EXCL_TYPES) else "excl"
+        if kind in ("excl", "both"):
+            cnt = rnd.randint(1, 4) if k >= len(EXCL_TYPES) else 1
+            for j in range(cnt):
+                # the first len(EXCL_TYPES) pairs walk through every excluded type once
+                gt, cls, imp, ax = EXCL_TYPES[k % len(EXCL_TYPES)] if (k < len(EXCL_TYPES) and j == 0) else rnd.choice(EXCL_TYPES)
+                how = rnd.choice(hows)
+                ss = structs_of(dec)
+                path, fl = ss[rnd.randrange(len(ss))]
+                pos = rnd.randint(0, len(fl))
+                dec = replace_at(dec, path, lambda l, pos=pos, how=how, gt=gt: l[:pos] + [("excluded", how, gt)] + l[pos:])
+                imports.update(imp)
+                if ax and ax not in aux:
+                    aux += ax
+                desc.append("excluded:%s:%s:depth%d:pos%d" % (how, cls, len(path), pos))
+        if kind in ("embed", "both"):
+            # embedding inside a nested struct is a catalogued finding (compile error); it is only generated on its own
+            # so that the catalogue entry cannot hide a problem with excluded fields (exclusion by construction)
+            ss = [(p, fl) for p, fl in structs_of(dec) if len(fl) >= 1 and (kind == "embed" or len(p) == 0)]
+            path, fl = ss[rnd.randrange(len(ss))]
+            i = rnd.randrange(len(fl))
+            j = rnd.randint(i + 1, len(fl))
+            dec = replace_at(dec, path, lambda l, i=i, j=j: l[:i] + [("embedded", l[i:j])] + l[j:])
+            desc.append("embedded:depth%d:fields%d-%d-of-%d" % (len(path), i, j, len(fl)))
+        pairs.append(dict(base=base, dec=dec, desc=desc, imports=tuple(sorted(imports)), aux=aux))
+    return pairs
+
+
+def c14_prepare(D, pid, cfg, W, tier, replay):
+    seed = int(os.environ.get("VERIF_SEED", "1") or 1)
+    W.c14 = []
+    items = []
+    if replay or True:
+        # regression inputs / --replay: pairs stored as sources
+        paths = [os.path.abspath(replay)] if replay else sorted(glob.glob(os.path.join(D.VERIF, "replays", pid, "*.json")))
+        for k in D.known_entries(pid):
+            if k["replay"] and not replay:
+                paths.append(os.path.join(D.VERIF, k["replay"]))
+        W.replay_pkgs = {}
+        for i, p in enumerate(paths):
+            try:
+                c = json.load(open(p))["case"]
+            except Exception:
+                continue
+            bn, dn = "rb%04d" % i, "rd%04d" % i
+            rb = lab.gen_one(W, bn, c["base.go"].replace("package " + c["base_pkg"], "package " + bn, 1), determinism=False)
+            rd = lab.gen_one(W, dn, c["decorated.go"].replace("package " + c["dec_pkg"], "package " + dn, 1), determinism=False)
+            W.replay_pkgs[p] = (bn, dn, rb, rd, c)
+    if not replay:
+        pairs = c14_pairs(D, tier, seed)
+        for i, pr in enumerate(pairs):
+            bn, dn = "b%04d" % i, "d%04d" % i
+            bsrc = lab.emit(bn, pr["base"])
+            dsrc = lab.emit(dn, pr["dec"], imports=pr["imports"], extra=pr["aux"])
+            W.c14.append(dict(i=i, bn=bn, dn=dn, bsrc=bsrc, dsrc=dsrc, desc=pr["desc"], shape=lab.typed_notation(pr["base"]), dshape=lab.notation(pr["dec"])))
+    import concurrent.futures as cf
+    with cf.ThreadPoolExecutor(max_workers=os.cpu_count() or 4) as ex:
+        futs = {}
+        for c in W.c14:
+            futs[ex.submit(lab.gen_one, W, c["bn"], c["bsrc"], False)] = (c, "b")
+            futs[ex.submit(lab.gen_one, W, c["dn"], c["dsrc"], True)] = (c, "d")
+        for fut in cf.as_completed(futs):
+            c, which = futs[fut]
+            c[which + "res"] = fut.result()
+    names = []
+    for c in W.c14:
+        for w in ("b", "d"):
+            if c[w + "res"]["ok"]:
+                names.append(c[w + "n"])
+    for p, (bn, dn, rb, rd, c) in W.replay_pkgs.items():
+        names += [n for n, r in ((bn, rb), (dn, rd)) if r["ok"]]
+    bad = lab.build_all(W, names)
+    if "_other" in bad:
+        raise RuntimeError("go build ./lab/... failed outside lab packages:\n" + bad["_other"][:2000])
+
+    def drop(name):
+        for fn in ("parquet.go", "adapter.go"):
+            try:
+                os.remove(os.path.join(W.h, "lab", name, fn))
+            except OSError:
+                pass
+    for c in W.c14:
+        for w in ("b", "d"):
+            r = c[w + "res"]
+            if r["ok"] and c[w + "n"] in bad:
+                r["ok"], r["cls"] = False, "compile-error"
+                r["log"] = "\n".join([l for l in bad[c[w + "n"]].splitlines() if l.strip()][:3])[:600]
+                drop(c[w + "n"])
+    for p, (bn, dn, rb, rd, c) in W.replay_pkgs.items():
+        for n, r in ((bn, rb), (dn, rd)):
+            if r["ok"] and n in bad:
+                r["ok"], r["cls"], r["log"] = False, "compile-error", bad[n][:600]
+                drop(n)
+    pkgs = []
+    for c in W.c14:
+        if c["bres"]["ok"] and c["dres"]["ok"]:
+            pkgs += ["lab/" + c["bn"], "lab/" + c["dn"]]
+        else:
+            for w in ("b", "d"):
+                if c[w + "res"]["ok"]:
+                    drop(c[w + "n"])
+    for p, (bn, dn, rb, rd, c) in W.replay_pkgs.items():
+        if rb["ok"] and rd["ok"]:
+            pkgs += ["lab/" + bn, "lab/" + dn]
+        else:
+            for n, r in ((bn, rb), (dn, rd)):
+                if r["ok"]:
+                    drop(n)
+    return pkgs
+
+
+def c14_key(c):
+    """violation key for a decorated program that does not generate/compile: class + the transformation kinds involved."""
+    if c["desc"] and all(d.startswith("embedded:") and not d.startswith("embedded:depth0") for d in c["desc"]):
+        return "C14/%s/embedded-in-nested-struct" % c["dres"]["cls"]
+    kinds = sorted(set(":".join(d.split(":")[:3]) if d.startswith("excluded") else "embedded" for d in c["desc"]))
+    return "C14/%s/%s" % (c["dres"]["cls"], "+".join(kinds))
+
+
+def c14_post(D, pid, cfg, W, tier):
+    import props as P
+    violations, hits, counts, cat = [], {}, {}, []
+    for c in W.c14:
+        if not c["bres"]["ok"]:
+            counts["base-unhealthy(discarded)"] = counts.get("base-unhealthy(discarded)", 0) + 1
+            continue
+        if c["dres"]["ok"]:
+            counts["built"] = counts.get("built", 0) + 1
+            continue
+        key = c14_key(c)
+        counts[c["dres"]["cls"]] = counts.get(c["dres"]["cls"], 0) + 1
+        cat.append("known: property=C14 key=%s :: decorated struct (%s) does not %s: %s" % (key, ", ".join(c["desc"]), "generate" if c["dres"]["cls"] == "gen-error" else "compile",
+                                                                                      (c["dres"]["log"].strip().splitlines() or [""])[0][:160].replace(" :: ", " : ")))
+        if is_known(D, pid, key):
+            hits[key] = hits.get(key, 0) + 1
+            continue
+        msg = json.dumps({"property": pid, "key": key, "msg": c["dres"]["log"], "case": {"transform": c["desc"], "base_pkg": c["bn"], "dec_pkg": c["dn"], "base.go": c["bsrc"], "decorated.go": c["dsrc"]}}, indent=1)
+        violations.append(P.save_failure(pid, msg))
+    cov = {"programs": 2 * len(W.c14), "program_build_classes": counts, "known_finding_hits_build": hits, "catalogue_lines": sorted(set(cat))}
+    # hand the pair descriptions to the evidence
+    cov["transform_samples"] = [{"base": c["shape"], "decorated": c["dshape"], "transform": c["desc"]} for c in W.c14[:6]]
+    return violations, cov, []
+
+
+def c14_replay_env(W, path):
+    bn, dn, rb, rd, c = W.replay_pkgs.get(path, ("rb0000", "rd0000", {"ok": False, "cls": "gen-error"}, {"ok": False, "cls": "gen-error"}, {}))
+    e = {"VERIF_REPLAY_PKG": bn, "VERIF_REPLAY_PKG2": dn}
+    if not rd["ok"] and rb["ok"]:
+        e["VERIF_REPLAY_BUILDKEY"] = c14_key(dict(desc=c.get("transform", []), dres=rd))
+    return e
+
+
+_register_c05 = register
+
+
+def register(PROPS):
+    _register_c05(PROPS)
+    PROPS["C14"] = dict(
+        level="exploration",
+        technique="metamorphic testing over programs: base struct vs decorated struct (excluded fields inserted / run of fields replaced by an embedded struct) must produce byte-identical files",
+        level_text="Exploration over programs: healthy base shapes of the C05 grammar are decorated with excluded fields of many Go types (unexported or dash-tagged, at any position and nesting level) "
+                   "and/or have a contiguous run of fields replaced by a by-value embedded struct; both programs are generated with the working tree's parquetgen and compiled; for the structural value "
+                   "space of the base the two writers must emit identical bytes and the decorated reader must return the values with zero excluded fields.",
+        level_note="Trusted: the Go compiler, the reflection bridge. Base shapes listed as failing under C05 are not used. Program choice is seeded by VERIF_SEED (python random), values are enumerated.",
+        fixtures=[],
+        gen_anchored=True,
+        prepare=c14_prepare, post=c14_post, replay_env=c14_replay_env,
+        stages=[dict(test="TestC14", kind="enum", quick=1, thorough=1, timeout_thorough=5400)],
+        replay="TestReplayC14",
+        rule="program pairs (48 quick / 400 thorough): the first 21 pairs insert one excluded field of each Go type class (8 primitives, other basic types, pointer, slice, array, map, chan, func with "
+             "unnamed/named parameters and results, anonymous structs with exported fields, interfaces, named struct / pointer / slice of it, qualified types) into a healthy base; the rest draw 1..4 excluded "
+             "fields (how in {unexported, dash-tagged} quick; + {_x, non-ASCII lower-case} thorough) at random structs/positions and/or replace a random contiguous run of fields of a random struct by an "
+             "embedded struct. Oracle: decorated program generates deterministically and compiles; for up to 60 structurally distinct records x 3 workloads the bytes written are identical to the base's; "
+             "reading the decorated file into fresh structs gives the written values and zero excluded fields (dash-tagged exported fields were filled with junk before Add). evaluations = records judged; "
+             "non-trivial = pair whose decoration is inside a nested/repeated group, of composite type, or an embedded run not at the start; distinct by pair.",
+    )
